@@ -3,6 +3,7 @@ import XalanModel.C16.DecodeProofs
 import XalanModel.C16.CollatorProofs
 import XalanModel.C16.LibSortProofs
 import XalanModel.C16.PositionProofs
+import XalanModel.Generated.C11_Prologue
 /-!
 # C16 — xsl:sort yields a stable permutation ordered by its keys
 
@@ -504,6 +505,41 @@ theorem noCacheGuards_counterexample :
   refine ⟨by decide, ?_, by decide⟩
   rw [← sortNodesM_eq_sortNodes _ (fun _ => strCompare_threeWay)]
   decide
+
+/-! ## the context a sort key is evaluated in -/
+
+/-- **sort_key_context.**  Whatever the outer instruction's current node and whatever lies below on the context-list
+stack: during one sort, in whatever order the comparator asks for key values (`order`), every key is evaluated with
+the node being sorted as BOTH the current node (`current()`) and the context node, with `position()` = that node's
+1-based place in the selected, unsorted list and `last()` = the number of selected nodes (XSLT 1.0 §10). -/
+theorem sort_key_context [DecidableEq α] (outer : α) (below : List (List α)) (selected order : List α) :
+    keyContexts evalKeyAt outer selected order (sortStartCtx outer below selected) =
+      order.map (fun x => ⟨x, x, indexOf1 selected x, selected.length⟩) :=
+  keyContexts_ok outer selected order _ (fun _ _ h => by simp [sortStartCtx, posStep] at h) rfl
+
+/-- … with `position()` spelled out: the `i`-th selected node sees `i + 1`. -/
+theorem sort_key_position [DecidableEq α] (outer : α) (below : List (List α)) (selected : List α) (hnd : selected.Nodup)
+    (i : Nat) (hi : i < selected.length) :
+    keyContexts evalKeyAt outer selected [selected[i]] (sortStartCtx outer below selected) =
+      [⟨selected[i], selected[i], i + 1, selected.length⟩] := by
+  rw [sort_key_context]; simp [indexOf1_getElem selected i hi hnd]
+
+/-- **sort_key_context_counterexample.**  Without `CurrentNodePushAndPop` in the overload the sorter calls (not the
+code): every key sees the OUTER current node (here 9) as `current()`, so a key `…[@ref = current()/@id]…` has the same
+value for all nodes. -/
+theorem sort_key_context_counterexample :
+    keyContexts evalKeyAtNoPush 9 [5, 6, 7] [6, 5, 7] (sortStartCtx 9 [] [5, 6, 7]) =
+      [⟨9, 6, 2, 3⟩, ⟨9, 5, 1, 3⟩, ⟨9, 7, 3, 3⟩] ∧
+    keyContexts evalKeyAt 9 [5, 6, 7] [6, 5, 7] (sortStartCtx 9 [] [5, 6, 7]) =
+      [⟨6, 6, 2, 3⟩, ⟨5, 5, 1, 3⟩, ⟨7, 7, 3, 3⟩] := by decide
+
+/-- **nodeSorter_overloads_push_current.**  Over the prologue table that C11's translator regenerates from XPath.cpp on
+every run: the two `execute(context, resolver, executionContext, out)` overloads NodeSorter's `getResult` calls —
+`double&` for data-type="number", `XalanDOMString&` for text — declare `CurrentNodePushAndPop(executionContext, context)`. -/
+theorem nodeSorter_overloads_push_current :
+    ∀ e ∈ XalanModel.Generated.C11.executePrologues,
+      e.1 = "main" → (e.2.1 = XalanModel.C11.EP.num ∨ e.2.1 = XalanModel.C11.EP.str) →
+        "CurrentNodePushAndPop(executionContext,context)" ∈ e.2.2.1 := by decide
 
 /-! ## what the body sees -/
 
